@@ -84,10 +84,11 @@ def find_additional_properties(instance, schema):
     """
 
     properties = schema.get("properties", {})
-    patterns = "|".join(schema.get("patternProperties", {}))
+    patterns = schema.get("patternProperties", {})
+    joined = "|".join(patterns)
     for property in instance:
         if property not in properties:
-            if patterns and re.search(patterns, property):
+            if patterns and re.search(joined, property):
                 continue
             yield property
 
